@@ -30,14 +30,22 @@ fn gen_specs(rng: &mut impl Rng) -> Vec<gen::EntrySpec> {
 }
 
 /// archive with a mix of normal entries and solid blocks (blocks carry their own private chunk)
-fn build_archive(rng: &mut impl Rng, cfg: &Cfg) -> (Vec<u8>, serde_json::Value) {
-    let specs = gen_specs(rng);
+fn build_archive(rng: &mut impl Rng, cfg: &Cfg, one_big_block: bool) -> (Vec<u8>, serde_json::Value) {
+    let mut specs = gen_specs(rng);
+    if one_big_block {
+        // a solid block of at least four entries, so that an edit can hit its first, middle and last entry
+        while specs.len() < 4 {
+            let mut more = gen_specs(rng);
+            more.retain(|e| !specs.iter().any(|s| s.name == e.name));
+            specs.extend(more);
+        }
+    }
     let mut a = Archive::write_header(Vec::new()).unwrap();
     let mut i = 0;
     let mut layout = vec![];
     while i < specs.len() {
-        if rng.gen_bool(0.35) {
-            let k = rng.gen_range(1..=(specs.len() - i).min(3));
+        if one_big_block || rng.gen_bool(0.35) {
+            let k = if one_big_block { specs.len() - i } else { rng.gen_range(1..=(specs.len() - i).min(3)) };
             let mut sb = SolidEntryBuilder::new(cfg.options()).unwrap();
             // block-level unknown chunks: every combination of the ancillary / safe-to-copy letter cases
             for _ in 0..[0usize, 1, 1, 2][rng.gen_range(0..4)] {
@@ -113,21 +121,25 @@ pub fn edit(ctx: &mut Ctx) {
         let mut cfg = gen::gen_cfg(&mut rng, false);
         if case % 4 != 0 { cfg.enc = 0; }
         let pw = if cfg.enc != 0 { Some(cfg.password.clone()) } else { None };
-        let (bytes0, desc) = build_archive(&mut rng, &cfg);
+        // the first cases of every run: one solid block of >= 4 entries, `delete` of a single entry (first, middle,
+        // last in turn) and of a pattern, under both strategies
+        let forced = case < 12;
+        let (bytes0, desc) = build_archive(&mut rng, &cfg, forced);
         let sbx = Sbx::new("edit", case);
         let apath = sbx.path("a.pna");
         std::fs::write(&apath, &bytes0).unwrap();
         let before = match read_logical(&[bytes0.clone()], pw.as_deref()) { Ok(v) => v, Err(e) => { ctx.notes.push(format!("generated archive unreadable: {e}")); continue; } };
         let names: Vec<String> = flat(&before).iter().map(|e| e.name.clone()).collect();
-        let strategy = if rng.gen_bool(0.5) { "unsolid" } else { "keep-solid" };
+        let strategy = if forced { if case % 2 == 0 { "keep-solid" } else { "unsolid" } } else if rng.gen_bool(0.5) { "unsolid" } else { "keep-solid" };
         let npat = rng.gen_range(1..3);
-        let pats: Vec<&str> = (0..npat).map(|_| PATTERNS[rng.gen_range(0..PATTERNS.len())]).collect();
+        let single: String = if names.is_empty() { "a.txt".into() } else { globset::escape(&names[[0, names.len() / 2, names.len() - 1][(case / 2) % 3].min(names.len() - 1)]) };
+        let pats: Vec<&str> = if forced && case < 6 { vec![single.as_str()] } else { (0..npat).map(|_| PATTERNS[rng.gen_range(0..PATTERNS.len())]).collect() };
         let sel = glob_sel(&pats, &names);
         let mut args: Vec<String> = vec![];
         let mut chown_expect: Option<(Option<(u64, String)>, Option<(u64, String)>)> = None;
         let cmd: &str;
         let model_req: String;
-        match rng.gen_range(0..6) {
+        match if forced { 0 } else { rng.gen_range(0..6) } {
             0 => {
                 cmd = "delete";
                 let excl: Vec<&str> = if rng.gen_bool(0.3) { vec![PATTERNS[rng.gen_range(0..PATTERNS.len())]] } else { vec![] };
